@@ -364,6 +364,39 @@ func notePanic(fn string, in []byte, slack, unc bool, msg string) {
 	p.Count("panics_recovered", 1)
 }
 
+// every other violation is aggregated per key as well: one report per class with the shortest description seen.
+type vagg struct {
+	n    int
+	what string
+	w    interface{}
+}
+
+var (
+	vaggs    = map[string]*vagg{}
+	vaggKeys []string
+)
+
+func viol(key, what string, w interface{}) {
+	a := vaggs[key]
+	if a == nil {
+		a = &vagg{}
+		vaggs[key] = a
+		vaggKeys = append(vaggKeys, key)
+	}
+	a.n++
+	if a.n == 1 || len(what) < len(a.what) {
+		a.what, a.w = what, w
+	}
+}
+
+func flushViolations() {
+	sort.Strings(vaggKeys)
+	for _, k := range vaggKeys {
+		a := vaggs[k]
+		p.Violation(k, fmt.Sprintf("%s  [%d case(s) of this class in this run]", a.what, a.n), a.w)
+	}
+}
+
 func flushPanics() {
 	keys := make([]string, 0, len(panics))
 	for k := range panics {
@@ -651,11 +684,11 @@ func phaseRoundtrip() {
 				var s []byte
 				var serr error
 				if pm := probe.Try(func() { s, serr = dvid.SerializeData(pl.data, cp.c, ck) }); pm != "" {
-					p.Violation("serialize-panic:"+cp.name, "SerializeData panicked: "+pm+" on "+desc, map[string]interface{}{"case": desc})
+					viol("serialize-panic:"+cp.name, "SerializeData panicked: "+pm+" on "+desc, map[string]interface{}{"case": desc})
 					continue
 				}
 				if serr != nil {
-					p.Violation("serialize-error:"+cp.name, "SerializeData returned an error for a legal payload: "+serr.Error()+" on "+desc, map[string]interface{}{"case": desc})
+					viol("serialize-error:"+cp.name, "SerializeData returned an error for a legal payload: "+serr.Error()+" on "+desc, map[string]interface{}{"case": desc})
 					continue
 				}
 				p.Count("serialize_calls", 1)
@@ -668,7 +701,7 @@ func phaseRoundtrip() {
 							continue
 						}
 						if res.err != nil || len(res.out) != 0 || len(s) != 0 {
-							p.Violation("roundtrip:empty-payload", fmt.Sprintf("%s: serialised to %d bytes, deserialised to %d bytes err=%v", desc, len(s), len(res.out), res.err), map[string]interface{}{"case": desc})
+							viol("roundtrip:empty-payload", fmt.Sprintf("%s: serialised to %d bytes, deserialised to %d bytes err=%v", desc, len(s), len(res.out), res.err), map[string]interface{}{"case": desc})
 						}
 					}
 					continue
@@ -680,23 +713,23 @@ func phaseRoundtrip() {
 				}
 				wantFB := byte(cp.code<<5) | byte(wantCk)<<3
 				if s[0] != wantFB {
-					p.Violation("envelope:format-byte:"+cp.name, fmt.Sprintf("%s: format byte %#02x, expected %#02x", desc, s[0], wantFB), map[string]interface{}{"case": desc})
+					viol("envelope:format-byte:"+cp.name, fmt.Sprintf("%s: format byte %#02x, expected %#02x", desc, s[0], wantFB), map[string]interface{}{"case": desc})
 					continue
 				}
 				hl := headerLen(s)
 				stored := s[hl:]
 				if wantCk == dvid.CRC32 {
 					if got, want := binary.LittleEndian.Uint32(s[1:5]), refCRC32(stored); got != want {
-						p.Violation("envelope:crc-value:"+cp.name, fmt.Sprintf("%s: stored CRC %08x, reference CRC of the stored bytes %08x", desc, got, want), map[string]interface{}{"case": desc})
+						viol("envelope:crc-value:"+cp.name, fmt.Sprintf("%s: stored CRC %08x, reference CRC of the stored bytes %08x", desc, got, want), map[string]interface{}{"case": desc})
 					}
 				}
 				cf, ckd := dvid.DecodeSerializationFormat(dvid.SerializationFormat(s[0]))
 				if int(cf) != cp.code || ckd != wantCk {
-					p.Violation("envelope:decode-format", fmt.Sprintf("%s: DecodeSerializationFormat(%#02x) = (%d,%d)", desc, s[0], cf, ckd), map[string]interface{}{"case": desc})
+					viol("envelope:decode-format", fmt.Sprintf("%s: DecodeSerializationFormat(%#02x) = (%d,%d)", desc, s[0], cf, ckd), map[string]interface{}{"case": desc})
 				}
 				// what is stored decodes to the payload by an independent decoder
 				if ref, err := refDecode(cp.code, stored); err != nil || !bytes.Equal(ref, pl.data) {
-					p.Violation("roundtrip:stored-bytes-not-decodable:"+cp.name, fmt.Sprintf("%s: reference decoder on the stored bytes: err=%v equal=%v", desc, err, err == nil && bytes.Equal(ref, pl.data)), map[string]interface{}{"case": desc})
+					viol("roundtrip:stored-bytes-not-decodable:"+cp.name, fmt.Sprintf("%s: reference decoder on the stored bytes: err=%v equal=%v", desc, err, err == nil && bytes.Equal(ref, pl.data)), map[string]interface{}{"case": desc})
 				}
 				for _, unc := range []bool{true, false} {
 					in := exact(s)
@@ -708,7 +741,7 @@ func phaseRoundtrip() {
 					}
 					key := fmt.Sprintf("roundtrip:%s:%s:uncompress=%v", cp.name, cksName(ck), unc)
 					if res.err != nil {
-						p.Violation(key, fmt.Sprintf("%s: DeserializeData(uncompress=%v) failed on its own serialisation: %v", desc, unc, res.err), map[string]interface{}{"case": desc, "serialized_hex": hexTrunc(s)})
+						viol(key, fmt.Sprintf("%s: DeserializeData(uncompress=%v) failed on its own serialisation: %v", desc, unc, res.err), map[string]interface{}{"case": desc, "serialized_hex": hexTrunc(s)})
 						continue
 					}
 					want := pl.data
@@ -716,11 +749,11 @@ func phaseRoundtrip() {
 						want = stored
 					}
 					if !bytes.Equal(res.out, want) {
-						p.Violation(key, fmt.Sprintf("%s: DeserializeData(uncompress=%v) returned %d bytes (%s), expected %d bytes (%s)", desc, unc, len(res.out), short(res.out), len(want), short(want)),
+						viol(key, fmt.Sprintf("%s: DeserializeData(uncompress=%v) returned %d bytes (%s), expected %d bytes (%s)", desc, unc, len(res.out), short(res.out), len(want), short(want)),
 							map[string]interface{}{"case": desc, "serialized_hex": hexTrunc(s), "payload_hex": hexTrunc(pl.data), "got_hex": hexTrunc(res.out)})
 					}
 					if int(res.cf) != cp.code {
-						p.Violation(key+":format", fmt.Sprintf("%s: reported compression %d, expected %d", desc, res.cf, cp.code), map[string]interface{}{"case": desc})
+						viol(key+":format", fmt.Sprintf("%s: reported compression %d, expected %d", desc, res.cf, cp.code), map[string]interface{}{"case": desc})
 					}
 					if !bytes.Equal(in, s) {
 						p.Count("input_mutated_by_deserialize", 1)
@@ -730,7 +763,7 @@ func phaseRoundtrip() {
 				p.Begin(desc + " precompressed")
 				s2, err := dvid.SerializePrecompressedData(stored, cp.c, ck)
 				if err != nil || !bytes.Equal(s2, s) {
-					p.Violation("precompressed:differs:"+cp.name, fmt.Sprintf("%s: SerializePrecompressedData(stored bytes) differs from SerializeData output (err=%v)", desc, err), map[string]interface{}{"case": desc})
+					viol("precompressed:differs:"+cp.name, fmt.Sprintf("%s: SerializePrecompressedData(stored bytes) differs from SerializeData output (err=%v)", desc, err), map[string]interface{}{"case": desc})
 				}
 				p.Case(fmt.Sprintf("pre|%s|%s|%s|%s", pl.name, short(pl.data), cp.name, cksName(ck)), true)
 				if sampled < 1 && len(pl.data) > 8 && len(pl.data) < 40 && cp.code == cLZ4 && ck == dvid.CRC32 {
@@ -767,7 +800,7 @@ func phaseGob(r *rand.Rand) {
 				p.Begin(desc)
 				s, err := dvid.Serialize(obj, cp.c, ck)
 				if err != nil {
-					p.Violation("gob:serialize-error", desc+": "+err.Error(), nil)
+					viol("gob:serialize-error", desc+": "+err.Error(), nil)
 					continue
 				}
 				var back gobT
@@ -778,7 +811,7 @@ func phaseGob(r *rand.Rand) {
 					continue
 				}
 				if err != nil || fmt.Sprintf("%v", back) != fmt.Sprintf("%v", normGob(obj)) {
-					p.Violation("gob:roundtrip", fmt.Sprintf("%s: err=%v got=%v want=%v", desc, err, back, obj), map[string]interface{}{"serialized_hex": hexTrunc(s)})
+					viol("gob:roundtrip", fmt.Sprintf("%s: err=%v got=%v want=%v", desc, err, back, obj), map[string]interface{}{"serialized_hex": hexTrunc(s)})
 				}
 			}
 		}
@@ -915,7 +948,7 @@ func phaseCorrupt() {
 			for _, ck := range []dvid.Checksum{dvid.CRC32, dvid.NoChecksum} {
 				s, err := dvid.SerializeData(pl.data, cp.c, ck)
 				if err != nil || len(s) == 0 {
-					p.Violation("serialize-error:"+cp.name, fmt.Sprintf("corrupt phase: SerializeData(%s,%s,%s): %v", pl.name, cp.name, cksName(ck), err), nil)
+					viol("serialize-error:"+cp.name, fmt.Sprintf("corrupt phase: SerializeData(%s,%s,%s): %v", pl.name, cp.name, cksName(ck), err), nil)
 					continue
 				}
 				hl := headerLen(s)
@@ -978,7 +1011,7 @@ func phaseCorrupt() {
 							continue // unreachable: pos 0 < header length
 						}
 						key := fmt.Sprintf("corruption-undetected:%s:%s:uncompress=%v", cp.name, c.kind, unc)
-						p.Violation(key, fmt.Sprintf("%s: altered value deserialised successfully to %d different bytes (%s), original payload %s", desc, len(res.out), short(res.out), short(pl.data)),
+						viol(key, fmt.Sprintf("%s: altered value deserialised successfully to %d different bytes (%s), original payload %s", desc, len(res.out), short(res.out), short(pl.data)),
 							map[string]interface{}{"case": desc, "original_serialized_hex": hexTrunc(s), "corrupted_hex": hexTrunc(bad), "returned_hex": hexTrunc(res.out), "payload_hex": hexTrunc(pl.data)})
 					}
 					if sampled < 1 && strict && c.kind == "bit" && len(pl.data) >= 8 && cp.code == cLZ4 {
@@ -1335,6 +1368,7 @@ func main() {
 		phaseCorrupt()
 		phaseHostile()
 	}
+	flushViolations()
 	flushPanics()
 	p.Done()
 }
